@@ -22,11 +22,20 @@ EXPLANATION = ("PartReader.read_header is executed symbolically against the part
                "declared type and count, values are scaled by the unit magnitude and labelled, skipping equals reading, "
                "the particle total is accumulated once.  The particle path of the real Loader.load is executed on the "
                "file-system model (2 cpu files, symbolic counts incl. the zero-particle form): per variable the group holds "
-               "the concatenation over cpu files in order, row-aligned; sorting on load is Datagroup.sortby (C06).  The "
-               "sink CSV path (np.loadtxt, eval of the unit line, legacy bracket dialect) is outside the verified subset: "
-               "bounded native check on synthesized CSV files only.")
-TRUSTED = c01.TRUSTED + ["np.loadtxt / eval in SinkReader.initialize (not verified)"]
-ASSUMPTIONS = ["sink tables: bounded only (1-5 sinks, both unit-line dialects, empty and missing file)"]
+               "the concatenation over cpu files in order, row-aligned; sorting on load is Datagroup.sortby (C06).  "
+               "SinkReader.initialize is executed on a CSV model: the two header lines are concrete text per case (code-unit "
+               "dialect with products/powers of m, l, t; legacy bracket dialect; ndim 1-3) and are parsed by the real string "
+               "code and the real eval() over the quantities returned by the real configure_units for SYMBOLIC unit_d/l/t; the "
+               "data block is an arbitrary table with one row or a symbolic number >= 2 of rows (np.loadtxt by assumed "
+               "contract: called with ',' and skiprows=2 it returns the numbers of the data lines, 1-D for a single line): "
+               "one row per sink, value == number in the file x the dialect's factor, unit, x/y/z merged into vectors, "
+               "select=False / missing file / empty file, and history independence (another dataset with other code units "
+               "parsed earlier in the same process).")
+TRUSTED = c01.TRUSTED + ["np.loadtxt(csv, delimiter=',', skiprows=2): returns the numeric fields of the data lines, squeezed to 1-D for "
+                         "one data line (assumed contract; the native sink sweep runs the real np.loadtxt on synthesized CSV files)",
+                         "os.path.exists / os.path.getsize (replaced by the case's file model in the sink unit)"]
+ASSUMPTIONS = ["sink unit lines: a fixed set of header texts per dialect (9-11 columns), not arbitrary strings; bounded native sweep "
+               "(0,1,2,5 sinks, both dialects, varying code units between cases) as the second line"]
 
 PART = "osyris.io.part"
 
@@ -180,3 +189,166 @@ def native(tier, seed):
     from pyvc import nativerun
 
     return nativerun.run("contracts.native_io:sweep_c14", tier, seed, timeout=3000)
+
+
+# --------------------------------------------------------------------------------------
+# sinks: SinkReader.initialize against the CSV dialects
+# --------------------------------------------------------------------------------------
+SINKMOD = "osyris.io.sink"
+
+
+def _sink_cases():
+    out = [{"label": "select_false", "mode": "off"}, {"label": "missing_file", "mode": "missing"}, {"label": "empty_file", "mode": "empty"}]
+    for ndim in (1, 2, 3):
+        for legacy in (False, True):
+            for rows in ("one", "many"):
+                out.append({"label": "ndim=%d,%s,%s" % (ndim, "legacy" if legacy else "code_units", rows), "mode": "table",
+                            "ndim": ndim, "legacy": legacy, "rows": rows})
+    # the same reader class used for another dataset (other code units, other table) earlier in the process
+    out.append({"label": "ndim=3,code_units,many,after_other_dataset", "mode": "table", "ndim": 3, "legacy": False, "rows": "many",
+                "warmup": True})
+    out.append({"label": "ndim=2,legacy,one,after_other_dataset", "mode": "table", "ndim": 2, "legacy": True, "rows": "one",
+                "warmup": True})
+    return out
+
+
+def _sink_columns(ndim, legacy):
+    """(key, unit text in the file, magnitude clause, unit expression) per CSV column, in file order.
+    code-unit dialect: products of m, l, t separated by blanks; legacy dialect: bracketed absolute units"""
+    comps = "xyz"[:ndim]
+    cols = [("id", "[1]" if legacy else "1", lambda mg, m, l, t: mg == 1, "dimensionless"),
+            ("msink", "[g]" if legacy else "m", (lambda mg, m, l, t: mg == 1) if legacy else (lambda mg, m, l, t: mg == m), "g")]
+    for c in comps:
+        cols.append((c, "[cm]" if legacy else "l", (lambda mg, m, l, t: mg == 1) if legacy else (lambda mg, m, l, t: mg == l), "cm"))
+    for c in comps:
+        cols.append(("v" + c, "[km/s]" if legacy else "l t**-1",
+                     (lambda mg, m, l, t: mg == 1) if legacy else (lambda mg, m, l, t: mg * t == l), "km/s" if legacy else "cm / s"))
+    cols.append(("age", "[s]" if legacy else "t", (lambda mg, m, l, t: mg == 1) if legacy else (lambda mg, m, l, t: mg == t), "s"))
+    cols.append(("lx", "[1]" if legacy else "m l**2 t**-1", (lambda mg, m, l, t: mg == 1) if legacy else (lambda mg, m, l, t: mg * t == m * l * l),
+                 "dimensionless" if legacy else "g * cm**2 / s"))
+    return cols
+
+
+@unit("C14", "SinkReader.initialize", targets=[SINKMOD + ":SinkReader.initialize", "osyris.io.utils:make_vector_arrays",
+                                               "osyris.config.defaults:configure_units"],
+      cases=_sink_cases(), replay=NIO.replay_sinks)
+def sink_initialize(case):
+    import types
+
+    osy = O()
+    S = M(SINKMOD)
+    d = M("osyris.config.defaults")
+    ud, ul, ut = [core.fresh_real(n) for n in ("unit_d", "unit_l", "unit_t")]
+    for v in (ud, ul, ut):
+        core.assume(v > 0)
+    units = d.configure_units(osy.units, ud, ul, ut)
+    mass = ud * ul * ul * ul
+    mode = case["mode"]
+    ndim = case.get("ndim", 3)
+    cols = _sink_columns(ndim, case.get("legacy", False))
+    k = len(cols)
+    want_name = "output_00007/sink_00007.csv"
+    log = {"exists": [], "getsize": [], "open": [], "loadtxt": []}
+    if mode == "table":
+        if case["rows"] == "one":
+            n = 1
+            table = snp.sym_array("csv", (k,), "float64")  # numpy: one data line gives a 1-D result
+            cell = lambda i, j: table.elem((j,))
+        else:
+            n = core.fresh_int("nsink", 2)
+            table = snp.sym_array("csv", (n, k), "float64")
+            cell = lambda i, j: table.elem((i, j))
+    lines = [" # " + ",".join(c[0] for c in cols) + "\n", " # " + ",".join(c[1] for c in cols) + "\n"]
+
+    def exists(p):
+        log["exists"].append(p)
+        return mode in ("empty", "table")
+
+    def getsize(p):
+        log["getsize"].append(p)
+        return 0 if mode == "empty" else 1000
+
+    def open_(p, m):
+        log["open"].append((p, m))
+        return list(lines) + ["<data>\n"] * 3
+
+    def loadtxt(fname, dtype, delimiter, skiprows):
+        log["loadtxt"].append((fname, dtype, delimiter, skiprows))
+        return table
+
+    real_os = S.os
+    S.os = types.SimpleNamespace(path=types.SimpleNamespace(exists=exists, getsize=getsize, join=os.path.join))
+    smisc.FILES["open"], smisc.FILES["loadtxt"] = open_, loadtxt
+    try:
+        if case.get("warmup"):
+            # an earlier dataset in the same process: arbitrary other code units and table (history independence)
+            ud0, ul0, ut0 = [core.fresh_real(n) for n in ("unit_d0", "unit_l0", "unit_t0")]
+            for v in (ud0, ul0, ut0):
+                core.assume(v > 0)
+            units0 = d.configure_units(osy.units, ud0, ul0, ut0)
+            keep = table
+            table = snp.sym_array("csv0", (3, k), "float64")
+            S.SinkReader().initialize({"nout": 7, "path": "", "ndim": ndim}, units0, True)
+            table = keep
+            for v in log.values():
+                del v[:]
+        r = S.SinkReader()
+        meta = {"nout": 7, "path": "", "ndim": ndim}
+        out = r.initialize(meta, units, False if mode == "off" else True)
+    finally:
+        S.os = real_os
+        smisc.FILES["open"], smisc.FILES["loadtxt"] = None, None
+    if mode == "off":
+        prove("nothing_touched", out is None and not any(log.values()))
+        return
+    prove("file_name", all(p == want_name for p in log["exists"] + log["getsize"]) and len(log["exists"]) >= 1)
+    if mode == "missing":
+        prove("no_group", out is None and not log["open"] and not log["loadtxt"])
+        return
+    if mode == "empty":
+        prove("empty_group", isinstance(out, osy.Datagroup) and len(out.keys()) == 0 and not log["loadtxt"])
+        return
+    # assumed contract of np.loadtxt: called on the CSV with ',' and the two header lines skipped, it returns the numbers of the
+    # data lines (row i, field j) -- squeezed to 1-D for a single data line
+    prove("loadtxt.call", len(log["loadtxt"]) == 1 and log["loadtxt"][0][0] == want_name and log["loadtxt"][0][1] is float
+          and log["loadtxt"][0][2] == "," and log["loadtxt"][0][3] == 2)
+    prove("header.read_from_same_file", [p for p, _ in log["open"]] == [want_name])
+    prove("is_group", isinstance(out, osy.Datagroup))
+    comps = "xyz"[:ndim]
+    expect_keys = ["id", "msink"] + (["position", "v"] if ndim > 1 else ["x", "vx"]) + ["age", "lx"]
+    prove("keys", sorted(out.keys()) == sorted(expect_keys))
+    j = core.fresh_int("row", 0)
+    core.assume(SV.lift(j) < n)
+    for ci, (key, _, magc, uexpr) in enumerate(cols):
+        if ndim > 1 and key in comps:
+            arr = getattr(out["position"], key)
+        elif ndim > 1 and key[0] == "v" and key[1:] in comps:
+            arr = getattr(out["v"], key[1:])
+        else:
+            arr = out[key]
+        prove("column[%s].one_row_per_sink" % key, arr.shape == (n,) if isinstance(n, int) else
+              (len(arr.shape) == 1 and core.conj(SV.lift(arr.shape[0]) == n)))
+        mg = core.fresh_real("mg_" + key)
+        # value == number in the file x factor, where the factor satisfies the dialect's clause
+        val = arr._array.elem((j,))
+        raw = cell(j, ci)
+        fac = _sink_factor(key, case["legacy"], ud * ul * ul * ul, ul, ut)
+        prove("column[%s].value" % key, fac(val, raw))
+        prove("column[%s].unit" % key, arr.unit == osy.units(uexpr))
+
+
+def _sink_factor(key, legacy, m, l, t):
+    """value/raw relation per column (division-free)"""
+    if legacy or key == "id":
+        return lambda v, raw: v == raw
+    if key == "msink":
+        return lambda v, raw: v == raw * m
+    if key in ("x", "y", "z"):
+        return lambda v, raw: v == raw * l
+    if key in ("vx", "vy", "vz"):
+        return lambda v, raw: v * t == raw * l
+    if key == "age":
+        return lambda v, raw: v == raw * t
+    if key == "lx":
+        return lambda v, raw: v * t == raw * m * l * l
+    raise KeyError(key)
